@@ -157,7 +157,7 @@ class Runner:
             native_running = []
             for n, _, _ in self.units:
                 self.stats[n] = {"paths": 0, "ok": 0, "infeasible": 0, "cut": 0, "inconclusive": 0, "queries": 0, "solver_s": 0.0,
-                                 "checks": 0, "why": {}, "reached": {}, "excused": {}, "violations": 0, "tasks": 0, "unexplored": 0}  # fmt: skip
+                                 "checks": 0, "why": {}, "reached": {}, "excused": {}, "overwide": {}, "violations": 0, "tasks": 0, "unexplored": 0}  # fmt: skip
             cand = {}  # (unit, label) -> [violation records]
             while any(queue.values()) or running or native_running:
                 now = time.time()
@@ -198,7 +198,7 @@ class Runner:
                     st = self.stats[n]
                     for k in ("paths", "ok", "infeasible", "cut", "inconclusive", "queries", "solver_s", "checks"):
                         st[k] += agg[k]
-                    for k in ("why", "reached", "excused"):
+                    for k in ("why", "reached", "excused", "overwide"):
                         for kk, c in agg[k].items():
                             st[k][kk] = st[k].get(kk, 0) + c
                     st.setdefault("kinds", {}).update(agg["kinds"])
